@@ -135,6 +135,9 @@ func (s *MS) Render() map[string]interface{} {
 	return m
 }
 
+// definitions of the C05 run that carry string formats
+var formatDefs = map[string]bool{"Lapse": true, "Day": true, "Stamp": true, "Ident": true, "Blob": true, "Task": true, "Budgets": true}
+
 // values of the string formats in the canonical text strfmt writes back (so that a loss-free round trip is the identity)
 var formatValues = map[string][]string{
 	"duration":  {"3h0m0s", "1.5s", "250ms", "1m30s"},
@@ -608,8 +611,11 @@ func modelsRun(run *ev.Run, which string) {
 		level := &MS{Ty: "integer", Minimum: i64p(2000), Maximum: i64p(4000), ExMax: true}
 		gauge := &MS{Ty: "object", Required: []string{"gain"}, Props: []MKV{{K: "gain", V: &MS{Ref: "Ratio"}}, {K: "level", V: &MS{Ref: "Level"}},
 			{K: "gains", V: &MS{Ty: "array", Items: &MS{Ref: "Ratio"}}}}}
+		// an alias of an alias (`CodeAlias: {$ref: Code}`) used as a property: the validations of Code apply through both names
+		code := &MS{Ty: "string", MaxLen: ip(3)}
+		holder := &MS{Ty: "object", Props: []MKV{{K: "c", V: &MS{Ref: "CodeAlias"}}, {K: "d", V: &MS{Ref: "Code"}}}}
 		fixed := []MKV{{K: "Counted", V: counted}, {K: "Elem", V: elem}, {K: "Bag", V: bag}, {K: "Items", V: itemsDef}, {K: "Ticket", V: ticket},
-			{K: "Ratio", V: ratio}, {K: "Level", V: level}, {K: "Gauge", V: gauge}}
+			{K: "Ratio", V: ratio}, {K: "Level", V: level}, {K: "Gauge", V: gauge}, {K: "Code", V: code}, {K: "CodeAlias", V: &MS{Ref: "Code"}}, {K: "Holder", V: holder}}
 		if which == "C05" {
 			// named string formats (aliases of the strfmt types) used directly, through $ref, as array items and as map values;
 			// C02 leaves them out: its Lean semantics does not read formats
@@ -640,14 +646,41 @@ func modelsRun(run *ev.Run, which string) {
 			}
 			continue
 		}
-		for ii := 0; ii < nInst; ii++ {
+		// every fixed definition gets its share of the instances (three rounds over them), the rest is drawn at random
+		var fixedNames []string
+		for _, kv := range fixed {
+			fixedNames = append(fixedNames, kv.K)
+		}
+		total := nInst
+		if total < 3*len(fixedNames)+20 {
+			total = 3*len(fixedNames) + 20
+		}
+		// hand-made probes for the fixed definitions (the points the random mutations reach only rarely)
+		type probe struct {
+			def  string
+			inst interface{}
+		}
+		probes := []probe{
+			{"Holder", map[string]interface{}{"c": "abcdefghijk"}}, {"Holder", map[string]interface{}{"d": "abcdefghijk"}},
+			{"Holder", map[string]interface{}{"c": "abc", "d": "ab"}}, {"CodeAlias", "abcdefghijk"}, {"Code", "abcd"}, {"CodeAlias", "abc"},
+			{"Gauge", map[string]interface{}{"gain": 1.5}}, {"Gauge", map[string]interface{}{"gain": 4.25, "level": int64(4)}},
+			{"Gauge", map[string]interface{}{"gain": 2.0, "level": int64(2), "gains": []interface{}{1.5}}},
+			{"Bag", map[string]interface{}{"k1": map[string]interface{}{"kind": "x", "size": int64(2), "extra1": int64(7)}}},
+			{"Elem", map[string]interface{}{"kind": "x", "extra1": int64(7), "extra2": int64(8)}},
+		}
+		for ii := -len(probes); ii < total; ii++ {
 			def := g.defs[g.r.Intn(len(g.defs))]
-			if len(dm[def].AllOf) > 0 && which == "C02" && false {
-				continue
+			if ii >= 0 && ii < 3*len(fixedNames) {
+				def = fixedNames[ii%len(fixedNames)]
 			}
-			inst := g.instanceOf(dm, def)
+			var inst interface{}
 			what := "valid-by-construction"
-			if (which == "C02" && ii%3 != 0) || (which == "C05" && ii%3 == 0) {
+			if ii < 0 {
+				def, inst, what = probes[ii+len(probes)].def, probes[ii+len(probes)].inst, "probe"
+			} else {
+				inst = g.instanceOf(dm, def)
+			}
+			if ii >= 0 && ((which == "C02" && ii%3 != 0) || (which == "C05" && ii%3 == 0)) {
 				if z, ok := g.zeroAnItem(inst); ok && ii%4 == 1 {
 					inst, what = z, "zero-item"
 				} else {
@@ -729,6 +762,12 @@ func modelsRun(run *ev.Run, which string) {
 					run.Sample(map[string]interface{}{"definition": def, "mutation": what, "instance": json.RawMessage(doc), "valid": sc.Valid, "generated_accepts": accepted})
 				}
 			case "C05":
+				if formatDefs[def] && what != "valid-by-construction" {
+					// the Lean semantics does not read formats: a mutated string ("" for a date-time) is valid for it and not for
+					// the schema; only instances built from canonical format values are judged for these definitions
+					st["format-definition-mutation-skipped"]++
+					continue
+				}
 				if what == "valid-by-construction" && sc.Valid && !resp.Decoded {
 					// a document that is valid by construction must at least decode: a failing json.Unmarshal loses everything
 					st["VALID-DOES-NOT-DECODE"]++
